@@ -14,9 +14,13 @@ ToSet(s) == {s[x] : x \in 1..Len(s)}
 NoDup(s) == Cardinality(ToSet(s)) = Len(s)
 KeysOK(s, e) == /\ \A x \in 1..Len(s) : s[x][1] = "str"          \* mapping keys stay strings ...
                 /\ {s[x][2] : x \in 1..Len(s)} = e /\ Len(s) = Cardinality(e)
+Key(p) == [name |-> p.name, loc |-> p.loc]
+Judgeable(s, e) == {p \in ToSet(s) : Key(p) \notin e.free}
+OncePerFreeKey(s, e) == \A k \in e.free : Cardinality({x \in 1..Len(s) : Key(s[x]) = k}) = 1
 MatchOk(it, e) == /\ it.ok /\ it.path = e.path /\ it.method = e.method
-                  /\ ToSet(it.params) = e.params /\ NoDup(it.params)     \* what data generation is built from
-                  /\ ToSet(it.plist) = e.params /\ NoDup(it.plist)       \* the parameter containers themselves
+                  /\ it.ref = <<e.esc, e.method>>                          \* the operation's own JSON reference leads back to it
+                  /\ Judgeable(it.params, e) = e.params /\ NoDup(it.params) /\ OncePerFreeKey(it.params, e)   \* what generation is built from
+                  /\ Judgeable(it.plist, e) = e.params /\ NoDup(it.plist) /\ OncePerFreeKey(it.plist, e)     \* the containers themselves
                   /\ ToSet(it.bodies) = e.bodies /\ NoDup(it.bodies)
                   /\ KeysOK(it.resp, e.resp) /\ KeysOK(it.props, e.props)
                   /\ (e.date # "" => it.date = <<"str", e.date>>)        \* ... and date-like scalars are not dates
@@ -29,6 +33,7 @@ AccessOK(d, a, judged, o) ==
          THEN /\ \A t \in Ops(d) : LET ab == {x \in 1..Len(o.items) : About(o.items[x], d, t)} IN
                                       Cardinality(ab) = 1 /\ \A x \in ab : Match(o.items[x], Outcome(d, t), TRUE)
               /\ \A x \in 1..Len(o.items) : \E t \in Ops(d) : About(o.items[x], d, t)
+         ELSE IF NoSuchId(d, a) THEN Len(o.items) = 1 /\ ~o.items[1].ok
          ELSE Len(o.items) = 1 /\ Match(o.items[1], Outcome(d, a.t), FALSE)
 Report == \A j \in 1..Len(hist) :
             IF AccessOK(doc, hist[j], Obs[i].judged[j], Obs[i].obs[j]) THEN TRUE ELSE PrintT(<<"DISAGREE", i, j>>)
